@@ -168,11 +168,69 @@ pub fn draw_args(rng: &mut Rng, m: &Msg) -> (Name, Name, bool, &'static str) {
 }
 
 pub fn one(ctx: &mut Ctx, x: &[u8], rng: &mut Rng, shape: &str) {
+    one_args(ctx, x, rng, shape, None)
+}
+
+/// A label boundary that exists only in the *bytes*: the source's first label has a length (45, 48..57) that
+/// is itself a legal host-name character ('-', '0'..'9'), and the message holds names in which that length
+/// byte and the label sit INSIDE a longer label. In suffix mode these must not match.
+pub fn embedded_boundary(rng: &mut Rng) -> (Msg, Name, Name, bool) {
+    let cfg = Cfg { alphabet: 6, long_names: false, ..Default::default() };
+    let l = *rng.pick(&[45usize, 48, 49, 50, 52, 55, 57]);
+    let first: Vec<u8> = (0..l).map(|_| *rng.pick(b"abcxyz019-")).collect();
+    let rest = Name((0..rng.range(1, 2)).map(|_| gen_label(rng, &cfg)).collect());
+    let source = Name(vec![first.clone()]).concat(&rest);
+    let embed = |rng: &mut Rng| -> Name {
+        let k = rng.range(1, 63 - 1 - l);
+        let mut lab: Vec<u8> = (0..k).map(|_| *rng.pick(b"abcxyz019")).collect();
+        lab.push(l as u8);
+        lab.extend_from_slice(&first);
+        Name(vec![lab]).concat(&rest)
+    };
+    let mut m = Msg { id: rng.u16(), flags: 0x8180, ..Default::default() };
+    let qn = match rng.below(3) {
+        0 => embed(rng),
+        1 => source.clone(),
+        _ => Name(vec![gen_label(rng, &cfg)]).concat(&rest),
+    };
+    m.question.push(Question { name: qn, qtype: 1, qclass: 1 });
+    let rec = |name: Name, rtype: u16, rdata: RData| Record { name, rtype, class: 1, ttl: 300, rdata };
+    for _ in 0..rng.range(2, 6) {
+        let n = match rng.below(4) {
+            0 => source.clone(),
+            1 => Name(vec![gen_label(rng, &cfg)]).concat(&source),
+            _ => embed(rng),
+        };
+        let s = rng.below(3);
+        match rng.below(4) {
+            0 => m.sec[s].push(rec(n, T_A, RData::A([192, 0, 2, 7]))),
+            1 => {
+                let t = embed(rng);
+                m.sec[s].push(rec(n, T_CNAME, RData::Name(t)))
+            }
+            2 => {
+                let t = embed(rng);
+                m.sec[s].push(rec(n, T_MX, RData::Mx(5, t)))
+            }
+            _ => {
+                let t = embed(rng);
+                m.sec[s].push(rec(t, T_NS, RData::Name(n)))
+            }
+        }
+    }
+    let target = if rng.chance(1, 2) { Name(vec![gen_label(rng, &cfg)]) } else { Name(vec![gen_label(rng, &cfg), gen_label(rng, &cfg), gen_label(rng, &cfg)]) };
+    (m, target, source, rng.chance(7, 8))
+}
+
+pub fn one_args(ctx: &mut Ctx, x: &[u8], rng: &mut Rng, shape: &str, forced: Option<(Name, Name, bool, &'static str)>) {
     let d = match refparse(x, STRICT) {
         Ok(d) => d,
         Err(_) => return,
     };
-    let (target, source, suffix, kind) = draw_args(rng, &d.msg);
+    let (target, source, suffix, kind) = match forced {
+        Some(f) => f,
+        None => draw_args(rng, &d.msg),
+    };
     // the property quantifies over well-formed, pointer-free, non-root names
     let wf = |n: &Name| {
         !n.is_root()
@@ -196,7 +254,7 @@ pub fn one(ctx: &mut Ctx, x: &[u8], rng: &mut Rng, shape: &str) {
         ctx.violation("C07", format!("rename|{}", cls), format!("{} {}: {}", shape, args, detail), x);
     };
     ctx.count(&format!("kind:{}:{}", kind, if suffix { "suffix" } else { "exact" }));
-    let out = guarded(runaway_budget(x.len()) * 40, || {
+    let out = guarded(crate::mon::work_budget(x.len()) * 4, || {
         Renamer::rename_with_raw_names(&mut pp, &tw, &sw, suffix).map_err(|e| e.to_string())
     });
     let out = match out {
@@ -256,7 +314,7 @@ pub fn one(ctx: &mut Ctx, x: &[u8], rng: &mut Rng, shape: &str) {
         Ok(Ok(pp)) => pp,
         _ => return,
     };
-    let r2 = guarded(runaway_budget(x.len()) * 40, || {
+    let r2 = guarded(crate::mon::work_budget(x.len()) * 4, || {
         let r = pp2.rename_with_raw_names(&tw, &sw, suffix).map_err(|e| e.to_string());
         let bytes = pp2.packet.as_ref().map(|p| p.clone());
         (r, bytes)
@@ -315,6 +373,20 @@ pub fn run(ctx: &mut Ctx) {
             }
         }
     }
+    // label boundaries that exist only in the bytes (see `embedded_boundary`)
+    let e = ctx.scaled(if ctx.tier == "thorough" { 400_000 } else { 16_000 });
+    for case in ctx.phase("embedded-boundary", e) {
+        if case % 256 == 0 && ctx.out_of_time() {
+            break;
+        }
+        ctx.begin_case(case);
+        let mut rng = Rng::for_case(ctx.seed, "c07-embedded", 0, case);
+        let (msg, target, source, suffix) = embedded_boundary(&mut rng);
+        let x = if rng.chance(1, 2) { msg.encode_literal() } else { Compress::compress(&msg.encode_literal()).unwrap_or_else(|_| msg.encode_literal()) };
+        ctx.cover(&format!("embedded|l{}|{}", source.0[0].len(), case % 10));
+        ctx.count("embedded_boundary_cases");
+        one_args(ctx, &x, &mut rng, "embedded-boundary", Some((target, source, suffix, "embedded-boundary")));
+    }
     // stress messages of C06 (deep nesting, many suffixes): the renamer compresses its output with the same dictionary
     let m = ctx.scaled(if ctx.tier == "thorough" { 400_000 } else { 16_000 });
     for case in ctx.phase("stress", m) {
@@ -323,7 +395,7 @@ pub fn run(ctx: &mut Ctx) {
         }
         ctx.begin_case(case);
         let mut rng = Rng::for_case(ctx.seed, "c06-stress", 0, case);
-        let fam = (case as usize) % super::c06::STRESS.len();
+        let fam = super::c06::stress_family(case);
         let msg = super::c06::stress(&mut rng, fam);
         let x = msg.encode_literal();
         ctx.cover(&format!("stress|{}|{}", fam, case % 10));
